@@ -1,6 +1,6 @@
 import H2V.Lemmas.ConnResetPRecv
 /-
-  ConnResetP — `Evolves SRel RInv` for streams.rs: the frame entry points of `Inner`, `poll_complete`,
+  ConnResetP — `Evolves (SRel D) RInv` for streams.rs: the frame entry points of `Inner`, `poll_complete`,
   the handle operations (`StreamRef`, `OpaqueStreamRef`), `drop_stream_ref`, `send_request`.
   With these every operation of the model that the connection (`Conn`) or the driver (`step`) calls
   on a `Streams` value is covered.
@@ -8,6 +8,7 @@ import H2V.Lemmas.ConnResetPRecv
 set_option linter.unusedSectionVars false
 namespace H2V.Lemmas.ConnResetP
 open H2V H2V.Model H2V.Model.Conn
+variable {D : Nat → Prop}
 
 set_option allowUnsafeReducibility true in
 attribute [local reducible] Streams.stream Store.getD'
@@ -32,111 +33,123 @@ theorem foldl_ev {P : Stream → Stream → Prop} {N : Stream → Prop} [Good P 
   | cons x l ih => exact ih (hf s x h)
 macro_rules | `(tactic| ev_step) => `(tactic| with_reducible refine foldl_ev _ (fun _ _ _ => ?_) _ ?_)
 
-theorem resetOnRecvStreamErr_sr (h : Evolves SRel RInv a s.store) (id : Nat) (r : Except PErr Unit) :
-    Evolves SRel RInv a (s.resetOnRecvStreamErr id r).1.store := by
+theorem resetOnRecvStreamErr_sr (h : Evolves (SRel D) RInv a s.store) (id : Nat) (r : Except PErr Unit) :
+    Evolves (SRel D) RInv a (s.resetOnRecvStreamErr id r).1.store := by
   unfold Streams.resetOnRecvStreamErr; ev
 macro_rules | `(tactic| ev_step) => `(tactic| with_reducible apply resetOnRecvStreamErr_sr)
 
-theorem actionsSendReset_sr (h : Evolves SRel RInv a s.store) (id : Nat) (r : Reason) (i : Initiator) :
-    Evolves SRel RInv a (s.actionsSendReset id r i).1.store := by
+theorem actionsSendReset_sr (h : Evolves (SRel D) RInv a s.store) (id : Nat) (r : Reason) (i : Initiator) :
+    Evolves (SRel D) RInv a (s.actionsSendReset id r i).1.store := by
   unfold Streams.actionsSendReset; ev
 macro_rules | `(tactic| ev_step) => `(tactic| with_reducible apply actionsSendReset_sr)
 
-theorem clearQueues_sr (h : Evolves SRel RInv a s.store) (c : Bool) : Evolves SRel RInv a (s.clearQueues c).store := by
+theorem clearQueues_sr (h : Evolves (SRel D) RInv a s.store) (c : Bool) : Evolves (SRel D) RInv a (s.clearQueues c).store := by
   unfold Streams.clearQueues; ev
 macro_rules | `(tactic| ev_step) => `(tactic| with_reducible apply clearQueues_sr)
 
-theorem recvHeaders_sr (h : Evolves SRel RInv a s.store) (hd : HeadersIn) :
-    Evolves SRel RInv a (s.recvHeaders hd).1.store := by
+theorem recvHeaders_sr (h : Evolves (SRel D) RInv a s.store) (hd : HeadersIn) :
+    Evolves (SRel D) RInv a (s.recvHeaders hd).1.store := by
   unfold Streams.recvHeaders; ev
 macro_rules | `(tactic| ev_step) => `(tactic| with_reducible apply recvHeaders_sr)
 
-theorem recvData_sr (h : Evolves SRel RInv a s.store) (id : Nat) (p : Bytes) (eos : Bool) (pl : Option Nat) :
-    Evolves SRel RInv a (s.recvData id p eos pl).1.store := by
+theorem recvData_sr (h : Evolves (SRel D) RInv a s.store) (id : Nat) (p : Bytes) (eos : Bool) (pl : Option Nat) :
+    Evolves (SRel D) RInv a (s.recvData id p eos pl).1.store := by
   unfold Streams.recvData; ev
 macro_rules | `(tactic| ev_step) => `(tactic| with_reducible apply recvData_sr)
 
-theorem recvReset_sr (h : Evolves SRel RInv a s.store) (id : Nat) (r : Reason) :
-    Evolves SRel RInv a (s.recvReset id r).1.store := by
+theorem recvReset_sr (h : Evolves (SRel D) RInv a s.store) (id : Nat) (r : Reason) :
+    Evolves (SRel D) RInv a (s.recvReset id r).1.store := by
   unfold Streams.recvReset; ev
 macro_rules | `(tactic| ev_step) => `(tactic| with_reducible apply recvReset_sr)
 
-theorem recvWindowUpdate_sr (h : Evolves SRel RInv a s.store) (id inc : Nat) :
-    Evolves SRel RInv a (s.recvWindowUpdate id inc).1.store := by
+theorem recvWindowUpdate_sr (h : Evolves (SRel D) RInv a s.store) (id inc : Nat) :
+    Evolves (SRel D) RInv a (s.recvWindowUpdate id inc).1.store := by
   unfold Streams.recvWindowUpdate; ev
 macro_rules | `(tactic| ev_step) => `(tactic| with_reducible apply recvWindowUpdate_sr)
 
-theorem recvPushPromise_sr (h : Evolves SRel RInv a s.store) (id : Nat) (hd : HeadersIn) :
-    Evolves SRel RInv a (s.recvPushPromise id hd).1.store := by
+theorem recvPushPromise_sr (h : Evolves (SRel D) RInv a s.store) (id : Nat) (hd : HeadersIn) :
+    Evolves (SRel D) RInv a (s.recvPushPromise id hd).1.store := by
   unfold Streams.recvPushPromise; ev
 macro_rules | `(tactic| ev_step) => `(tactic| with_reducible apply recvPushPromise_sr)
 
-theorem handleError_sr (h : Evolves SRel RInv a s.store) (e : PErr) :
-    Evolves SRel RInv a (s.handleError e).1.store := by
+theorem handleError_sr (h : Evolves (SRel D) RInv a s.store) (e : PErr) :
+    Evolves (SRel D) RInv a (s.handleError e).1.store := by
   unfold Streams.handleError; ev
 macro_rules | `(tactic| ev_step) => `(tactic| with_reducible apply handleError_sr)
 
-theorem recvGoAwayFrame_sr (h : Evolves SRel RInv a s.store) (l : Nat) (r : Reason) (d : Bytes) :
-    Evolves SRel RInv a (s.recvGoAwayFrame l r d).1.store := by
+theorem recvGoAwayFrame_sr (h : Evolves (SRel D) RInv a s.store) (l : Nat) (r : Reason) (d : Bytes) :
+    Evolves (SRel D) RInv a (s.recvGoAwayFrame l r d).1.store := by
   unfold Streams.recvGoAwayFrame; ev
 macro_rules | `(tactic| ev_step) => `(tactic| with_reducible apply recvGoAwayFrame_sr)
 
-theorem recvEof_sr (h : Evolves SRel RInv a s.store) (c : Bool) : Evolves SRel RInv a (s.recvEof c).store := by
+theorem recvEof_sr (h : Evolves (SRel D) RInv a s.store) (c : Bool) : Evolves (SRel D) RInv a (s.recvEof c).store := by
   unfold Streams.recvEof; ev
 macro_rules | `(tactic| ev_step) => `(tactic| with_reducible apply recvEof_sr)
 
-theorem innerSendReset_sr (h : Evolves SRel RInv a s.store) (id : Nat) (r : Reason) :
-    Evolves SRel RInv a (s.innerSendReset id r).1.store := by
+theorem innerSendReset_sr (h : Evolves (SRel D) RInv a s.store) (id : Nat) (r : Reason) :
+    Evolves (SRel D) RInv a (s.innerSendReset id r).1.store := by
   unfold Streams.innerSendReset; ev
 macro_rules | `(tactic| ev_step) => `(tactic| with_reducible apply innerSendReset_sr)
 
-theorem bufferPending_sr (fuel : Nat) (w : Writer) (h : Evolves SRel RInv a s.store) :
-    Evolves SRel RInv a (Streams.bufferPending fuel s w).1.store := by
+theorem bufferPending_sr (fuel : Nat) (w : Writer) (h : Evolves (SRel D) RInv a s.store) :
+    Evolves (SRel D) RInv a (Streams.bufferPending fuel s w).1.store := by
   unfold Streams.bufferPending; ev
 macro_rules | `(tactic| ev_step) => `(tactic| with_reducible apply bufferPending_sr)
 
-theorem pollComplete_sr (fuel : Nat) (w : Writer) (io : Tio) (t : String) (h : Evolves SRel RInv a s.store) :
-    Evolves SRel RInv a (Streams.pollComplete fuel s w io t).1.store := by
+theorem pollComplete_sr (fuel : Nat) (w : Writer) (io : Tio) (t : String) (h : Evolves (SRel D) RInv a s.store) :
+    Evolves (SRel D) RInv a (Streams.pollComplete fuel s w io t).1.store := by
   induction fuel generalizing s w io with
   | zero => unfold Streams.pollComplete; ev
   | succ n ih => unfold Streams.pollComplete; ev
 macro_rules | `(tactic| ev_step) => `(tactic| with_reducible apply pollComplete_sr)
 
-theorem applyRemoteSettings_sr (h : Evolves SRel RInv a s.store) (v : List (Nat × Nat)) (b : Bool) :
-    Evolves SRel RInv a (s.applyRemoteSettings v b).1.store := by
+theorem applyRemoteSettings_sr (h : Evolves (SRel D) RInv a s.store) (v : List (Nat × Nat)) (b : Bool) :
+    Evolves (SRel D) RInv a (s.applyRemoteSettings v b).1.store := by
   unfold Streams.applyRemoteSettings; ev
 macro_rules | `(tactic| ev_step) => `(tactic| with_reducible apply applyRemoteSettings_sr)
 
-theorem maybeCancel_sr (h : Evolves SRel RInv a s.store) (id : Nat) : Evolves SRel RInv a (s.maybeCancel id).store := by
+theorem maybeCancel_sr (h : Evolves (SRel D) RInv a s.store) (id : Nat) : Evolves (SRel D) RInv a (s.maybeCancel id).store := by
   unfold Streams.maybeCancel; ev
 macro_rules | `(tactic| ev_step) => `(tactic| with_reducible apply maybeCancel_sr)
 
-theorem dropStreamRef_sr (h : Evolves SRel RInv a s.store) (id : Nat) : Evolves SRel RInv a (s.dropStreamRef id).store := by
-  unfold Streams.dropStreamRef; ev
-macro_rules | `(tactic| ev_step) => `(tactic| with_reducible apply dropStreamRef_sr)
+/-- a handle of entry `id` goes away (`D id`) -/
+theorem Evolves.mod_drop {S : Store} (h : Evolves (SRel D) RInv a S) (id : Nat) (f : Stream → Stream) (hD : D id)
+    (hk : ∀ st, (f st).key = st.key) (hi : ∀ st, (f st).id = st.id) (hs : ∀ st, (f st).state = st.state)
+    (hq : ∀ st, (f st).pendingSend = st.pendingSend) : Evolves (SRel D) RInv a (Store.mod S id f) :=
+  h.mod id f (fun st hg => SRel.of_core4 (hk st) (hi st) (hs st) (hq st)
+    (fun hd => absurd (by rw [Store.get?_key hg]; exact hD) hd))
 
-theorem refSendResponse_sr (h : Evolves SRel RInv a s.store) (k : Nat) (f : List Hpack.Field) (eos : Bool) :
-    Evolves SRel RInv a (s.refSendResponse k f eos).1.store := by
+macro_rules
+  | `(tactic| ev_step) =>
+    `(tactic| (with_reducible refine Evolves.mod_drop ?_ _ _ (by assumption) (fun _ => rfl) (fun _ => rfl) (fun _ => rfl) (fun _ => rfl)))
+
+theorem dropStreamRef_sr (h : Evolves (SRel D) RInv a s.store) (id : Nat) (hD : D id) :
+    Evolves (SRel D) RInv a (s.dropStreamRef id).store := by
+  unfold Streams.dropStreamRef; ev
+macro_rules | `(tactic| ev_step) => `(tactic| (with_reducible refine dropStreamRef_sr ?_ _ (by assumption)))
+
+theorem refSendResponse_sr (h : Evolves (SRel D) RInv a s.store) (k : Nat) (f : List Hpack.Field) (eos : Bool) :
+    Evolves (SRel D) RInv a (s.refSendResponse k f eos).1.store := by
   unfold Streams.refSendResponse; ev
 macro_rules | `(tactic| ev_step) => `(tactic| with_reducible apply refSendResponse_sr)
 
-theorem refSendInformationalHeaders_sr (h : Evolves SRel RInv a s.store) (k : Nat) (f : List Hpack.Field) :
-    Evolves SRel RInv a (s.refSendInformationalHeaders k f).1.store := by
+theorem refSendInformationalHeaders_sr (h : Evolves (SRel D) RInv a s.store) (k : Nat) (f : List Hpack.Field) :
+    Evolves (SRel D) RInv a (s.refSendInformationalHeaders k f).1.store := by
   unfold Streams.refSendInformationalHeaders; ev
 macro_rules | `(tactic| ev_step) => `(tactic| with_reducible apply refSendInformationalHeaders_sr)
 
-theorem refSendData_sr (h : Evolves SRel RInv a s.store) (id len : Nat) (eos : Bool) :
-    Evolves SRel RInv a (s.refSendData id len eos).1.store := by
+theorem refSendData_sr (h : Evolves (SRel D) RInv a s.store) (id len : Nat) (eos : Bool) :
+    Evolves (SRel D) RInv a (s.refSendData id len eos).1.store := by
   unfold Streams.refSendData; ev
 macro_rules | `(tactic| ev_step) => `(tactic| with_reducible apply refSendData_sr)
 
-theorem refSendTrailers_sr (h : Evolves SRel RInv a s.store) (id : Nat) (f : List Hpack.Field) :
-    Evolves SRel RInv a (s.refSendTrailers id f).1.store := by
+theorem refSendTrailers_sr (h : Evolves (SRel D) RInv a s.store) (id : Nat) (f : List Hpack.Field) :
+    Evolves (SRel D) RInv a (s.refSendTrailers id f).1.store := by
   unfold Streams.refSendTrailers; ev
 macro_rules | `(tactic| ev_step) => `(tactic| with_reducible apply refSendTrailers_sr)
 
-theorem refSendReset_sr (h : Evolves SRel RInv a s.store) (id : Nat) (r : Reason) :
-    Evolves SRel RInv a (s.refSendReset id r).store := by
+theorem refSendReset_sr (h : Evolves (SRel D) RInv a s.store) (id : Nat) (r : Reason) :
+    Evolves (SRel D) RInv a (s.refSendReset id r).store := by
   unfold Streams.refSendReset; ev
 macro_rules | `(tactic| ev_step) => `(tactic| with_reducible apply refSendReset_sr)
 
@@ -144,8 +157,8 @@ theorem Evolves.remove_inserted {P : Stream → Stream → Prop} {N : Stream →
     (h0 : Evolves P N a S) (h : Evolves P N a b) : Evolves P N a (b.remove (S.insert x).2) :=
   Evolves.remove_new h0 h _ (Nat.le_refl _)
 
-theorem sendRequest_sr (h : Evolves SRel RInv a s.store) (isHead : Bool) (f : List Hpack.Field) (eos : Bool) (p : Option Nat) :
-    Evolves SRel RInv a (s.sendRequest isHead f eos p).1.store := by
+theorem sendRequest_sr (h : Evolves (SRel D) RInv a s.store) (isHead : Bool) (f : List Hpack.Field) (eos : Bool) (p : Option Nat) :
+    Evolves (SRel D) RInv a (s.sendRequest isHead f eos p).1.store := by
   unfold Streams.sendRequest; ev
   all_goals try (refine Evolves.insert (by assumption) _ (RInv.of_nil ?_); cases isHead <;> rfl)
   all_goals
@@ -153,8 +166,8 @@ theorem sendRequest_sr (h : Evolves SRel RInv a s.store) (isHead : Bool) (f : Li
     ev
 macro_rules | `(tactic| ev_step) => `(tactic| with_reducible apply sendRequest_sr)
 
-theorem refSendPushPromise_sr (h : Evolves SRel RInv a s.store) (p : Nat) (v : Bool) (f : List Hpack.Field) :
-    Evolves SRel RInv a (s.refSendPushPromise p v f).1.store := by
+theorem refSendPushPromise_sr (h : Evolves (SRel D) RInv a s.store) (p : Nat) (v : Bool) (f : List Hpack.Field) :
+    Evolves (SRel D) RInv a (s.refSendPushPromise p v f).1.store := by
   unfold Streams.refSendPushPromise Streams.sendReserveLocal; ev
   all_goals
     refine Evolves.remove_inserted _ (by assumption) ?_
